@@ -1,6 +1,105 @@
-(** Entry points for C16 (stub: replaced by the property's own entry file). *)
-From Coq Require Import ZArith List.
-From GV Require Import Base.Val.
+(** Entry points for C16 (distance-matrix command).
+
+    wire formats   str     : list of code points          entry : (str genome-index)
+                   option  : () / (x)                      D     : rows of binary32 bit patterns,
+                                                                  D[g1][g2] = distance of genomes g1, g2
+                   params  : (q ql qfs qs r rl rfs rs use_db db square)
+                   dres    : (0 payload) | (1 code)   codes: 1 usage, 2 no database, 3 no such file,
+                             4 shape (ValueError), 5 IndexError, 6 uninitialised cell, 7 fuel, 8 unreachable
+                   cell    : () uninitialised | (bits) *)
+From Coq Require Import ZArith List Bool.
+From GV Require Import Base.Val Model.C16 Spec.C16.
+Import ListNotations.
 Open Scope Z_scope.
 
-Definition dispatch (op : Z) (a : val) : val := vbad.
+Definition derr_code (e : derr) : Z :=
+  match e with
+  | UsageError => 1 | NoDatabase => 2 | NoSuchFile => 3 | ShapeError => 4 | IndexErr => 5
+  | Uninitialised => 6 | FmtFuel => 7 | Unreachable => 8
+  end.
+Definition vdres {A} (f : A -> val) (r : dres A) : val :=
+  match r with DOk a => vok (f a) | DErr e => verr (derr_code e) end.
+
+Definition vstr (s : str) : val := VL (map VI s).
+Definition vtable (t : table) : val := vlist (vlist vstr) t.
+Definition vcell (c : cell) : val := vopt VI c.
+Definition vmat (m : mat) : val := vlist (vlist vcell) m.
+
+Definition to_entry (v : val) : entry :=
+  match v with VL [s; VI g] => (to_Zs s, g) | _ => ([], -1) end.
+Definition to_entries (v : val) : list entry := map to_entry (to_list v).
+Definition to_cell (v : val) : cell := to_opt to_Z v.
+
+(** the oracle: a table lookup; cells the harness did not send read as -1 *)
+Definition oracle (D : list (list Z)) (a b : G) : Z :=
+  if (a <? 0) || (b <? 0) then -1 else nth (Z.to_nat b) (nth (Z.to_nat a) D []) (-1).
+Definition to_D (v : val) : list (list Z) := map to_Zs (to_list v).
+
+Definition to_params (v : val) : option params :=
+  match v with
+  | VL [q; ql; qfs; qs; r; rl; rfs; rs; udb; db; sq] =>
+      Some (mkParams (to_entries q) (to_opt to_Zs ql) (to_entries qfs) (to_opt to_entries qs)
+                     (to_entries r) (to_opt to_Zs rl) (to_entries rfs) (to_opt to_entries rs)
+                     (to_bool udb) (to_opt to_entries db) (to_bool sq))
+  | _ => None
+  end.
+
+Definition vscaled (b : Z) : val :=
+  match f32_dyadic_of_bits b with
+  | Some (s, m, e) => VL [vbool s; VI (scaled4 m e)]
+  | None => VL []
+  end.
+
+Definition dispatch (op : Z) (a : val) : val :=
+  match op with
+  (* 1: dist_cmd (D params) *)
+  | 1 => match a with
+         | VL [D; p] => match to_params p with
+                        | Some p' => vdres vtable (dist_cmd (oracle (to_D D)) p')
+                        | None => vbad
+                        end
+         | _ => vbad
+         end
+  (* 2: fmt4 bits *)
+  | 2 => vdres vstr (fmt4 (to_Z a))
+  (* 3: get_file_id path *)
+  | 3 => vstr (get_file_id (to_Zs a))
+  (* 4: read_lines text *)
+  | 4 => vlist vstr (read_lines (to_Zs a))
+  (* 5: dump_dmat_csv (dmat row_ids col_ids) *)
+  | 5 => match a with
+         | VL [m; rids; cids] =>
+             vdres vtable (dump_dmat_csv (map (fun r => map to_cell (to_list r)) (to_list m))
+                                         (map to_Zs (to_list rids)) (map to_Zs (to_list cids)))
+         | _ => vbad
+         end
+  (* 6: jaccarddist_pairwise (D sigs) *)
+  | 6 => match a with
+         | VL [D; s] => vdres vmat (jaccarddist_pairwise (oracle (to_D D)) (to_Zs s))
+         | _ => vbad
+         end
+  (* 11: specification of the rounding: () not finite | (negative? N) with N/10^4 the rounded value *)
+  | 11 => vscaled (to_Z a)
+  (* 12: specification table (D params) with the model's cell text: (table) or () *)
+  | 12 => match a with
+          | VL [D; p] =>
+              match to_params p with
+              | Some p' =>
+                  let d := oracle (to_D D) in
+                  if p_square p' then
+                    match supplied_q p', supplied_r p' with
+                    | Some Q, Some _ => VL [vtable (spec_square_table fmt4_str d Q)]
+                    | _, _ => VL []
+                    end
+                  else match supplied_q p', supplied_r p' with
+                       | Some Q, Some R => VL [vtable (spec_table (fun x y => fmt4_str (d x y)) Q R)]
+                       | _, _ => VL []
+                       end
+              | None => vbad
+              end
+          | _ => vbad
+          end
+  (* 13: parse_fixed4 text -> () | (negative? N) *)
+  | 13 => match parse_fixed4 (to_Zs a) with Some (s, n) => VL [vbool s; VI n] | None => VL [] end
+  | _ => vbad
+  end.
